@@ -113,7 +113,7 @@ Section Model.
   Definition drop_ignored (ls : list str) : list str := rev (drop_ignored_rev (rev ls)).
 
   Definition is_some {A} (o : option A) : bool := match o with Some _ => true | None => false end.
-  Definition starts_space (s : str) : bool := match s with 32 :: _ => true | _ => false end.
+  Definition starts_space (s : str) : bool := match s with c :: _ => c =? 32 | [] => false end.   (* startswith(' ') *)
 
   Definition cons_frame (f : frame) (r : res (list frame * list str)) : res (list frame * list str) :=
     match r with
@@ -203,6 +203,10 @@ Section Model.
   (* a Callpoint as built by Callpoint.from_tb: module_path, lineno, func_name and
      the line that linecache returns for (module_path, lineno) *)
   Record callpoint := mkCP { cp_path : str; cp_lineno : N; cp_func : str; cp_raw : str }.
+
+  (* Callpoint.from_tb on a traceback entry (the walking itself is CPython's) *)
+  Definition cp_of_live (l : live_frame) : callpoint :=
+    mkCP (lv_file l) (lv_lineno l) (lv_name l) (lv_raw l).
 
   (* _DeferredLine.__str__ : linecache.getline(...).rstrip() *)
   Definition deferred_str (raw : str) : str := rstrip C raw.
